@@ -218,3 +218,189 @@ def unit_product_by_order(timeout_ms=10000):
     refuted = any(o.status == "refuted" and "iteration-adds-spec-contribution" in o.name for o in rc.obligations)
     results[0].canaries.append(("product_by_order: spec without the mirrored Hermitian term is refuted", refuted and rc.engine_error is None))
     return results
+
+
+# ======================================================================================
+# cauchy_dot_product: wrapper around product_by_order (binary) and left fold (n-ary)
+# ======================================================================================
+from pyvc.core import Model, Builtin, TypeObj, SStr, SExc  # noqa: E402
+from pyvc.nf import fn_atom  # noqa: E402
+
+
+class SNewSeries(SSeries):
+    """A BlockSeries created by the code under contract (callers' view + settable eval)."""
+
+    def __init__(self, name, shape0, shape1, n_inf, dimnames, kwargs):
+        super().__init__(name, shape0, shape1, n_inf)
+        self.dimension_names = dimnames
+        self.kwargs = kwargs
+        self.eval_fn = None
+        self.factors = None
+        self.hermitian_flag = None
+
+    def m_getattr(self, eng, name):
+        if name == "eval":
+            return self.eval_fn
+        return super().m_getattr(eng, name)
+
+    def m_setattr(self, eng, name, value):
+        if name == "eval":
+            self.eval_fn = value
+            return
+        raise Unsupported(f"assignment to BlockSeries.{name}")
+
+
+class SInSeries(SSeries):
+    def __init__(self, name, eng):
+        a, b, n, d = (eng.fresh(f"{name}_shape0"), eng.fresh(f"{name}_shape1"), eng.fresh(f"{name}_ninf"), eng.fresh(f"{name}_dimnames"))
+        eng.assume(z3.And(a >= 1, b >= 1, n >= 1))
+        super().__init__(name, SI(a), SI(b), SI(n))
+        self.dimension_names = SI(d)
+
+
+def _series_ctor(eng, *args, **kw):
+    if args:
+        raise Unsupported("positional arguments to BlockSeries(...)")
+    shape = eng.as_seq(kw.get("shape"))
+    if len(shape.items) != 2:
+        raise Unsupported("product shape is not 2-dimensional")
+    return SNewSeries("product", shape.items[0], shape.items[1], kw.get("n_infinite"), kw.get("dimension_names"), kw)
+
+
+def _pbo_contract(calls):
+    def pbo(eng, index, first, second, operator=None, hermitian=False):
+        calls.append(dict(index=index, first=first, second=second, operator=operator, hermitian=hermitian))
+        eng.used_models.add("contract:product_by_order (verified as its own unit)")
+        tag = eng.fresh("pbo_tag")
+        eng.assume(z3.And(tag >= 0, tag <= 2))
+        herm = hermitian if isinstance(hermitian, bool) else ZK(hermitian.e)
+        idx = eng.as_seq(index)
+        key = ("pbo", first.name, second.name, ZK(zi(idx.items[0])), ZK(zi(idx.items[1])), ZK(idx.tail.arr), herm, id(operator) if operator is not None else None)
+        return SObj(tag, NF.atom(key))
+    return pbo
+
+
+def unit_cauchy_binary(timeout_ms=10000):
+    node = frontend.find(MODULE, "cauchy_dot_product")
+
+    def harness(eng):
+        first, second = SInSeries("first", eng), SInSeries("second", eng)
+        herm = z3.Bool("hermitian")
+        op = SMulOp("operator")
+        calls = []
+        eng.globals["BlockSeries"] = Builtin("BlockSeries", _series_ctor)
+        eng.globals["product_by_order"] = Builtin("product_by_order", _pbo_contract(calls))
+        eng.globals["cauchy_dot_product"] = Builtin("cauchy_dot_product(recursive)", lambda *a, **k: (_ for _ in ()).throw(Unsupported("unexpected recursion in binary case")))
+        clo = Closure(node, Env(None, {}), "cauchy_dot_product")
+        compat = z3.And(zi(first.n_inf) == zi(second.n_inf), zi(first.dimension_names) == zi(second.dimension_names),
+                        zi(first.shape1) == zi(second.shape0))
+        try:
+            prod = eng.call(clo, [first, second], {"operator": op, "hermitian": SB(herm)})
+        except PyRaise as pr:
+            eng.oblige("raises-only-ValueError", z3.BoolVal(pr.exc.cls == "ValueError"), detail=str(pr.exc.cls))
+            eng.oblige("raises-only-if-incompatible", z3.Not(compat), detail="ValueError only for factors with different numbers/names of infinite dimensions or incompatible finite shapes")
+            return
+        eng.oblige("accepted-implies-compatible", compat)
+        if not isinstance(prod, SNewSeries) or prod.eval_fn is None:
+            eng.oblige("returns-series-with-eval", False)
+            return
+        eng.oblige("product-shape", z3.And(zi(prod.shape0) == zi(first.shape0), zi(prod.shape1) == zi(second.shape1), zi(prod.n_inf) == zi(first.n_inf)),
+                   detail="shape (first.shape[0], second.shape[1]) and the factors' number of infinite dimensions")
+        eng.oblige("product-starts-empty", z3.BoolVal(prod.kwargs.get("data") is None), detail="no preset data in the product series")
+        # behaviour of the evaluator for an arbitrary index
+        N = zi(prod.n_inf)
+        i, j = eng.fresh("i"), eng.fresh("j")
+        n = SVec(z3.Array("n", z3.IntSort(), z3.IntSort()), N)
+        eng.assume_forall(lambda k: z3.Implies(z3.And(k >= 0, k < N), n.at(k) >= 0))
+        eng.assume(z3.And(i >= 0, i < zi(prod.shape0), j >= 0, j < zi(prod.shape1)))
+        # a product declared hermitian is square (its lower blocks are adjoints of upper blocks)
+        eng.assume(z3.Implies(herm, zi(prod.shape0) == zi(prod.shape1)))
+        calls.clear()
+        res = eng.call(prod.eval_fn, [SI(i), SI(j), __import__("pyvc.core", fromlist=["StarTail"]).StarTail(STup([], n))], {})
+        lower_h = z3.And(herm, i > j)
+        if eng.branch(lower_h):
+            want = prod.element(eng, SI(j), SI(i), n).nf.dagger()
+            eng.oblige_nf("eval:lower-block-of-hermitian-product-is-adjoint-of-upper", res.nf, want,
+                          detail="for hermitian=True and i > j the element is Dagger(product[j, i, n])")
+            eng.oblige("eval:no-product_by_order-call-for-lower-block", z3.BoolVal(len(calls) == 0))
+        else:
+            ok = len(calls) == 1
+            eng.oblige("eval:one-product_by_order-call", z3.BoolVal(ok))
+            if ok:
+                c = calls[0]
+                idx = eng.as_seq(c["index"])
+                eng.oblige("eval:product_by_order-gets-index-factors-operator-flag",
+                           z3.And(zi(idx.items[0]) == i, zi(idx.items[1]) == j, z3.BoolVal(idx.tail is n or idx.tail.arr.get_id() == n.arr.get_id()),
+                                  z3.BoolVal(c["first"] is first and c["second"] is second and c["operator"] is op),
+                                  (c["hermitian"].e if isinstance(c["hermitian"], SB) else z3.BoolVal(bool(c["hermitian"]))) == herm),
+                           detail="product_by_order(index, first, second, operator=operator, hermitian=hermitian)")
+
+    return run_unit("series:cauchy_dot_product[2 factors]", harness, functions=[(MODULE, "cauchy_dot_product")], timeout_ms=timeout_ms)
+
+
+def unit_cauchy_nary(nfactors=3, timeout_ms=10000):
+    """n > 2 factors: left fold of binary products; the hermitian flag must not reach the inner
+    binary products (their factors are not adjoint pairs), only the lower-block wrapper."""
+    node = frontend.find(MODULE, "cauchy_dot_product")
+
+    def harness(eng):
+        factors = [SInSeries(f"f{k}", eng) for k in range(nfactors)]
+        herm = z3.Bool("hermitian")
+        op = SMulOp("operator")
+        rec_calls = []
+
+        class Inner(SNewSeries):
+            pass
+
+        def rec(eng_, *series, operator=None, hermitian=False):
+            eng_.used_models.add("contract:cauchy_dot_product for fewer factors (induction on the number of factors)")
+            rec_calls.append(dict(series=series, operator=operator, hermitian=hermitian))
+            h = hermitian.e if isinstance(hermitian, SB) else z3.BoolVal(bool(hermitian))
+            # precondition of hermitian=True: the factors form an adjoint pair (second = first^dagger);
+            # nothing in this context establishes that, so the flag has to be False here
+            eng_.oblige("inner-product-not-declared-hermitian", z3.Not(h),
+                        detail="hermitian=True needs second = adjoint(first); a partial product A.B and the next factor are not such a pair")
+            if len(series) < 2 or len(series) >= nfactors:
+                eng_.oblige("recursion-on-fewer-factors", False, detail=f"recursive call with {len(series)} factors")
+            p = Inner("prod(" + ",".join(s.name for s in series) + ")", series[0].shape0, series[-1].shape1, series[0].n_inf, series[0].dimension_names, {})
+            p.factors = series
+            inner_eval_calls = []
+            p.inner_eval_calls = inner_eval_calls
+
+            def inner_eval(eng2, *index):
+                inner_eval_calls.append(index)
+                idx = pack(index)
+                return p.element(eng2, idx.items[0], idx.items[1], idx.tail)
+            p.eval_fn = Builtin("nonhermitian_eval", inner_eval)
+            return p
+
+        from pyvc.core import pack_star as pack
+        eng.globals["cauchy_dot_product"] = Builtin("cauchy_dot_product(recursive)", rec)
+        eng.globals["BlockSeries"] = Builtin("BlockSeries", _series_ctor)
+        clo = Closure(node, Env(None, {}), "cauchy_dot_product")
+        prod = eng.call(clo, factors, {"operator": op, "hermitian": SB(herm)})
+        # structure: left fold ((f0 f1) f2 ...)
+        ok = len(rec_calls) == 2 and [s.name for s in rec_calls[0]["series"]] == ["f0", "f1"] \
+            and rec_calls[1]["series"][0].factors is rec_calls[0]["series"] and [s.name for s in rec_calls[1]["series"][1:]] == [f.name for f in factors[2:]]
+        eng.oblige("nary:left-fold-of-all-factors-in-order", z3.BoolVal(ok), detail="cauchy(cauchy(f0, f1), f2, ...)")
+        eng.oblige("nary:operator-forwarded", z3.BoolVal(all(c["operator"] is op for c in rec_calls)))
+        if not isinstance(prod, SNewSeries) or prod.eval_fn is None:
+            eng.oblige("nary:returns-product-series", False)
+            return
+        outer = rec_calls[1]["series"] and prod
+        N = zi(prod.n_inf)
+        i, j = eng.fresh("i"), eng.fresh("j")
+        n = SVec(z3.Array("n", z3.IntSort(), z3.IntSort()), N)
+        eng.assume(z3.And(i >= 0, i < zi(prod.shape0), j >= 0, j < zi(prod.shape1)))
+        eng.assume_forall(lambda k: z3.Implies(z3.And(k >= 0, k < N), n.at(k) >= 0))
+        eng.assume(z3.Implies(herm, zi(prod.shape0) == zi(prod.shape1)))
+        from pyvc.core import StarTail
+        res = eng.call(prod.eval_fn, [SI(i), SI(j), StarTail(STup([], n))], {})
+        if eng.branch(z3.And(herm, i > j)):
+            eng.oblige_nf("nary:lower-block-of-hermitian-product-is-adjoint-of-upper", res.nf, prod.element(eng, SI(j), SI(i), n).nf.dagger())
+        else:
+            eng.oblige_nf("nary:element-is-the-folded-product-element", res.nf, prod.element(eng, SI(i), SI(j), n).nf)
+
+    r = run_unit(f"series:cauchy_dot_product[{nfactors} factors]", harness, functions=[(MODULE, "cauchy_dot_product")], timeout_ms=timeout_ms)
+    r.bounded.append(f"number of factors = {nfactors} (the recursive call is replaced by the contract for fewer factors, i.e. an induction step)")
+    return r
